@@ -18,6 +18,11 @@ pub struct Streams {
     pub segop: Stream,
     pub seqop: Stream,
     pub rechunk: Stream,
+    /// the random (medium-sized) cases go to their own, smaller shards
+    pub build_r: Stream,
+    pub segop_r: Stream,
+    pub seqop_r: Stream,
+    pub random_phase: bool,
 }
 
 impl Streams {
@@ -25,18 +30,32 @@ impl Streams {
         // coqc start-up dominates the cost of a shard of tiny cases, so the exhaustive streams use big shards
         let mut s = Streams {
             build: Stream::new("build", REQ, "chk_from_slice", "list N", "outcome seg"),
-            query: Stream::new("query", REQ, "chk_seg_query", "seg * list N", "seg_query_out"),
+            query: Stream::new("query", REQ, "chk_seg_query", "seg * list N * list N", "seg_query_out"),
             segop: Stream::new("segop", REQ, "chk_seg_op", "seg * segop", "outcome seg"),
             seqop: Stream::new("seqop", REQ, "chk_seq_op", "rseq * seqop", "outcome seqres"),
             rechunk: Stream::new("rechunk", REQ, "chk_rechunk", "list rseq * list N * bool", "outcome (list rseq)"),
+            build_r: Stream::new("build_r", REQ, "chk_from_slice", "list N", "outcome seg"),
+            segop_r: Stream::new("segop_r", REQ, "chk_seg_op", "seg * segop", "outcome seg"),
+            seqop_r: Stream::new("seqop_r", REQ, "chk_seq_op", "rseq * seqop", "outcome seqres"),
+            random_phase: false,
         };
         s.build.shard = 1500;
-        s.query.shard = 600;
-        s.segop.shard = 3000;
-        s.seqop.shard = 3000;
-        s.rechunk.shard = 300;
+        s.query.shard = 250;
+        s.segop.shard = 1500;
+        s.seqop.shard = 1500;
+        s.rechunk.shard = 150;
+        s.build_r.shard = 400;
+        s.segop_r.shard = 250;
+        s.seqop_r.shard = 250;
         s
     }
+}
+
+/// Sanity-test switch (never set by ./check): `C34_PLANT=m2o` makes the harness behave as if
+/// mask_to_offset_ranges lost its last range on multi-segment sequences; `C34_PLANT=variant` records
+/// SortedArray results of from_slice as Array (same ids, wrong representation).
+pub fn plant() -> Option<String> {
+    std::env::var("C34_PLANT").ok()
 }
 
 fn known_class(l: &[u64]) -> Option<&'static str> {
@@ -56,7 +75,12 @@ fn opt_n(x: Option<u64>) -> String {
 /// from_slice on one list: correspondence case + list-semantics oracle
 pub fn case_build(sink: &mut Sink, st: &mut Streams, kind: &str, l: &[u64]) -> Option<Sg> {
     let r = catch(|| U64Segment::from_slice(l));
-    let mirrored: Result<Result<Sg, String>, bool> = r.as_ref().map(Sg::of_real).map_err(|e| *e);
+    let mut mirrored: Result<Result<Sg, String>, bool> = r.as_ref().map(Sg::of_real).map_err(|e| *e);
+    if plant().as_deref() == Some("variant") {
+        if let Ok(Ok(Sg::Sorted(a))) = &mirrored {
+            mirrored = Ok(Ok(Sg::Array(a.clone())));
+        }
+    }
     let out: Result<String, bool> = match &mirrored {
         Ok(Ok(sg)) => Ok(sg.coq()),
         Ok(Err(_)) => Ok("(SRange 1 0)".into()), // ill-formed: never equal to a model output
@@ -71,7 +95,7 @@ pub fn case_build(sink: &mut Sink, st: &mut Streams, kind: &str, l: &[u64]) -> O
     sink.count(&format!("gen:{kind}"));
     sink.nontrivial(&format!("b{:?}", l));
     let case = json!({"from_slice": l, "result": variant});
-    st.build.push(coq::nlist(l.iter()), coq::outcome(&out), case.clone());
+    if st.random_phase { &mut st.build_r } else { &mut st.build }.push(coq::nlist(l.iter()), coq::outcome(&out), case.clone());
     // ---- oracle
     if !nodup(l) {
         return mirrored.ok().and_then(|x| x.ok());
@@ -117,12 +141,20 @@ pub fn case_query(sink: &mut Sink, st: &mut Streams, sg: &Sg, probes: &[u64]) {
     if !sg.wf() {
         return;
     }
+    // indices for get(): the probes that are plausible offsets (the model's nth is unary in the index)
+    let bound = sg.len() + 3;
+    let mut idxs: Vec<u64> = probes.iter().copied().filter(|p| *p <= bound).collect();
+    if matches!(sg, Sg::Holes(..) | Sg::Bitmap(..)) && sg.len() > 60 && idxs.len() > 6 {
+        // get() on these variants walks the whole range in the model: a handful of indices is enough
+        let step = idxs.len() / 5;
+        idxs = idxs.iter().copied().step_by(step.max(1)).collect();
+    }
     let real = sg.to_real();
     let r = catch(|| {
         let len = real.len() as u64;
         let it: Vec<u64> = real.iter().collect();
         let rng_ = real.range().map(|r| (*r.start(), *r.end()));
-        let gets: Vec<Option<u64>> = probes.iter().map(|p| real.get(*p as usize)).collect();
+        let gets: Vec<Option<u64>> = idxs.iter().map(|p| real.get(*p as usize)).collect();
         let poss: Vec<Option<u64>> = probes.iter().map(|p| real.position(*p).map(|x| x as u64)).collect();
         let conts: Vec<bool> = probes.iter().map(|p| real.contains(*p)).collect();
         (len, it, rng_, gets, poss, conts)
@@ -136,8 +168,10 @@ pub fn case_query(sink: &mut Sink, st: &mut Streams, sg: &Sg, probes: &[u64]) {
     // oracle vs the brute-force list view
     let ids = sg.ids();
     let mut ok = len == ids.len() as u64 && it == ids;
-    for (k, p) in probes.iter().enumerate() {
+    for (k, p) in idxs.iter().enumerate() {
         ok &= gets[k] == ids.get(*p as usize).copied();
+    }
+    for (k, p) in probes.iter().enumerate() {
         ok &= poss[k] == ids.iter().position(|x| x == p).map(|x| x as u64);
         ok &= conts[k] == ids.contains(p);
     }
@@ -156,7 +190,7 @@ pub fn case_query(sink: &mut Sink, st: &mut Streams, sg: &Sg, probes: &[u64]) {
         coq::list(poss.iter().map(|x| opt_n(*x))),
         coq::list(conts.iter().map(|b| coq::b(*b)))
     );
-    st.query.push(format!("({}, {})", sg.coq(), coq::nlist(probes.iter())), out, case);
+    st.query.push(format!("({}, {}, {})", sg.coq(), coq::nlist(idxs.iter()), coq::nlist(probes.iter())), out, case);
 }
 
 pub fn probes_for(rng: &mut Rng, ids: &[u64], sg: &Sg) -> Vec<u64> {
@@ -245,7 +279,7 @@ pub fn case_segop(sink: &mut Sink, st: &mut Streams, sg: &Sg, op: &SegOp, oracle
     sink.count(&format!("segop:{}:{}->{}", opname, sg.kind().split('/').next().unwrap(), res_kind.split('/').next().unwrap()));
     let case = json!({"segment": sg.json(), "op": opj, "result": res_kind});
     sink.nontrivial(&format!("o{}{}", sg.coq(), opc));
-    st.segop.push(format!("({}, {})", sg.coq(), opc), coq::outcome(&out), case.clone());
+    if st.random_phase { &mut st.segop_r } else { &mut st.segop }.push(format!("({}, {})", sg.coq(), opc), coq::outcome(&out), case.clone());
     if !oracle {
         return;
     }
@@ -369,7 +403,11 @@ pub fn case_seqop(sink: &mut Sink, st: &mut Streams, q: &[Sg], op: &SeqOp, pre: 
         SeqOp::Select(s) => Ok(SeqRes::Ids(real.select(s.iter().map(|x| *x as usize)).collect())),
         SeqOp::MaskToOffsets(a, b) => {
             let m = build_mask(a, b);
-            Ok(SeqRes::Ranges(real.mask_to_offset_ranges(&m).into_iter().map(|r| (r.start, r.end)).collect()))
+            let mut rs: Vec<(u64, u64)> = real.mask_to_offset_ranges(&m).into_iter().map(|r| (r.start, r.end)).collect();
+            if plant().as_deref() == Some("m2o") && q.len() > 1 {
+                rs.pop();
+            }
+            Ok(SeqRes::Ranges(rs))
         }
         SeqOp::SelectRowIds(p) => {
             let params = match p {
@@ -411,7 +449,7 @@ pub fn case_seqop(sink: &mut Sink, st: &mut Streams, q: &[Sg], op: &SeqOp, pre: 
     sink.count(&format!("seqop:{opname}:{status}"));
     let case = json!({"sequence": seq_json(q), "op": opj, "status": status});
     sink.nontrivial(&format!("s{}{}", seq_coq(q), opc));
-    st.seqop.push(format!("({}, {})", seq_coq(q), opc), coq::outcome(&out), case.clone());
+    if st.random_phase { &mut st.seqop_r } else { &mut st.seqop }.push(format!("({}, {})", seq_coq(q), opc), coq::outcome(&out), case.clone());
     if !pre {
         return;
     }
@@ -702,14 +740,20 @@ pub fn random(sink: &mut Sink, st: &mut Streams, rng: &mut Rng, n_lists: usize, 
         case_segop(sink, st, &v, &SegOp::Mask(positions.clone()), true);
         // with_new_high
         let mx = *l.iter().max().unwrap();
-        for hv in [mx.saturating_add(1), mx.saturating_add(rng.range(2, 70000)), mx.saturating_add(1 << 33), mx, l[0], u64::MAX] {
-            let pre = hv > mx && hv - mx < (1 << 20) || hv <= mx || hv == u64::MAX;
-            // far-away highs on Range/Holes variants would materialise every hole: correspondence is skipped there
-            let far = hv > mx && hv - mx > (1 << 20);
-            if far && matches!(v, Sg::Range(..) | Sg::Holes(..) | Sg::Bitmap(..)) {
+        // far-away highs materialise every hole on the Range/Holes/Bitmap variants: keep those gaps small
+        let dense = matches!(v, Sg::Range(..) | Sg::Holes(..) | Sg::Bitmap(..));
+        let gap = if dense { rng.range(2, 300) } else { rng.range(2, 70000) };
+        let mut highs = vec![mx.saturating_add(1), mx.saturating_add(gap), mx, l[0], u64::MAX];
+        if !dense {
+            highs.push(mx.saturating_add(1 << 33));
+        }
+        for hv in highs {
+            if matches!(v, Sg::Holes(..)) && hv == u64::MAX && u64::MAX - mx > 300 {
+                // RangeWithHoles collects the new holes (range.end..val) BEFORE computing val + 1: with a far
+                // u64::MAX it would try to materialise ~2^64 holes instead of panicking - not executed.
                 continue;
             }
-            case_segop(sink, st, &v, &SegOp::NewHigh(hv), pre || far);
+            case_segop(sink, st, &v, &SegOp::NewHigh(hv), true);
         }
     }
     for _ in 0..n_seqs {
@@ -719,7 +763,7 @@ pub fn random(sink: &mut Sink, st: &mut Streams, rng: &mut Rng, n_lists: usize, 
         case_seqop(sink, st, &q, &SeqOp::Info, true);
         let other = rand_sequence(rng, 3, 40);
         // make adjacency likely: continue right after the last id sometimes
-        let other = if rng.bool() { if let Some(Sg::Range(_, e)) = q.last() { let mut o = vec![Sg::Range(*e, *e + rng.below(5))]; o.extend(other); o } else { other } } else { other };
+        let other = if rng.bool() { if let Some(Sg::Range(_, e)) = q.last() { let mut o = vec![Sg::Range(*e, e.saturating_add(rng.below(5)))]; o.extend(other); o } else { other } } else { other };
         case_seqop(sink, st, &q, &SeqOp::Extend(other), true);
         // delete: a random subset in random order, plus ids that are absent
         let den = rng.range(2, 5);
@@ -823,7 +867,7 @@ pub fn run(args: &Args, sink: &mut Sink, st: &mut Streams) {
         (u64::MAX - 13, 1),
         (3, (1u64 << 62) / 8),
     ];
-    let (max_id, max_len, sorted_n) = if args.thorough() { (6u64, 5usize, 13u32) } else { (5, 4, 10) };
+    let (max_id, max_len, sorted_n) = if args.thorough() { (5u64, 5usize, 13u32) } else { (4, 4, 9) };
     let lists = small_lists(max_id, max_len);
     sink.notes.push(format!(
         "exhaustive: all {} duplicate-free lists over ids 0..={} of length <= {}: from_slice, accessors, every slice, every deletion subset, every position mask, with_new_high; split in two segments: every allow-mask for mask_to_offset_ranges, every position mask, every deletion, every slice; all {} subsets of 0..{} under {} affine id maps (boundaries 2^16, 2^32, 2^62, 2^64): from_slice",
@@ -831,11 +875,12 @@ pub fn run(args: &Args, sink: &mut Sink, st: &mut Streams) {
     ));
     exhaustive_lists(sink, st, &lists, max_id, true, args.thorough());
     if args.thorough() {
-        // DESIGN X: ids <= 12, length <= 5, all masks - for the increasing lists (the unsorted ones are covered above up to id 6)
+        // DESIGN X: ids <= 12, length <= 5, all masks - for the increasing lists (the unsorted ones are covered above up to id 5)
         let wide: Vec<Vec<u64>> = subsets(13).into_iter().filter(|l| l.len() <= 5 && l.iter().any(|x| *x > max_id)).collect();
         sink.notes.push(format!("exhaustive: all {} increasing lists over ids 0..=12 of length <= 5 not covered above: every slice/deletion/mask", wide.len()));
         exhaustive_lists(sink, st, &wide, 12, false, false);
     }
     exhaustive_subsets(sink, st, sorted_n, &transforms);
-    random(sink, st, &mut rng, args.vol(250, 4000), args.vol(120, 2000), args.vol(300, 600) as u64);
+    st.random_phase = true;
+    random(sink, st, &mut rng, args.vol(120, 3000), args.vol(50, 1500), args.vol(100, 300) as u64);
 }
